@@ -131,6 +131,9 @@ def write_header(path, pte_entries=(), hlog_fields=(), static=True, brace_same_l
         L += [start, '{']
     for i, (pat, msg, params) in enumerate(pte_entries):
         L.append('  { "%s", "%s", {%s}, "file%d.cpp", %d },' % (pat, msg, ', '.join(str(p) for p in params), i, 100 + i))
+        if decoy_before and i == 0:
+            # a blanked-out entry (empty key) inside the table is no entry and does not end the table either
+            L.append('  { "", "Retired: was the second entry", {}, "retired.cpp", 530 },')
     L += ['  { ""        , "The End" }', '};', '', '#define MEX_HLOG_FIELD_DESC_LEN 26', '', 'struct mex_hlog_field', '{',
           '  uint8_t size;', '  char description[MEX_HLOG_FIELD_DESC_LEN];', '};', '',
           '#define MEX_HLOG_FIELD_COUNT %d' % len(hlog_fields), '']
